@@ -15,6 +15,7 @@ def gen_cases(seed, tier):
         pkg = rng.choice(["one", "two", "no"])
         n = rng.choice([4, 7, 12])
         s = rng.randint(1, 10**6)
+        idgap = rng.choice([0, 0, 3, 40]) if extra else 0          # pack ids need not be contiguous
         # content packs held in their own file
         separate = ([1] if pkg != "one" else []) + list(range(2, 2 + extra))
         subsets = []
@@ -33,12 +34,12 @@ def gen_cases(seed, tier):
                     ops.append(("remove", str(p)))
                 else:
                     ops.append((how, str(p)))
-            cases.append(dict(id="m%d" % len(cases), pkg=pkg, comp=comp, n=n, extra=extra, seed=s, ops=ops, unavailable=sorted(sub)))
+            cases.append(dict(id="m%d" % len(cases), pkg=pkg, comp=comp, n=n, extra=extra, seed=s, idgap=idgap, ops=ops, unavailable=sorted(sub)))
             # the check must still cover the packs that are present: corrupt one present pack, before or after a missing one
             present = [q for q in separate if q not in sub and (q != 1 or pkg != "one")]
             if sub and present:
                 for q in (present[:1] + present[-1:]) if len(present) > 1 else present:
-                    cases.append(dict(id="m%d" % len(cases), pkg=pkg, comp=comp, n=n, extra=extra, seed=s,
+                    cases.append(dict(id="m%d" % len(cases), pkg=pkg, comp=comp, n=n, extra=extra, seed=s, idgap=idgap,
                                       ops=ops + [("corrupt", str(q))], unavailable=sorted(sub), corrupted=[q]))
     return cases
 
@@ -89,9 +90,9 @@ def run(tier, seed, replay=None):
                     bad = "an entry changed: %s -> %s" % (a, b)
                 for m in re.finditer(r"c(\d+):(\d+)=(\S+)", b):
                     p, i, obs = int(m.group(1)), m.group(2), m.group(3)
-                    if p in c.get("corrupted", []):
+                    if P.pack_number(c, p) in c.get("corrupted", []):
                         continue
-                    if p in c["unavailable"]:
+                    if P.pack_number(c, p) in c["unavailable"]:
                         nmissing += 1
                         want = "MISSING:%s" % uu.get(p)
                     else:
